@@ -32,9 +32,9 @@ Qed.
 Section WithHash.
 Variables hashTrue hashFalse hashNull hashUndef : N.
 Variable mh : list N -> N.
-Variables ptr_sym ptr_obj : N -> N.
+Variables ptr_sym ptr_obj host_hash : N -> N.
 
-Local Notation goja_hash := (goja_hash hashTrue hashFalse hashNull hashUndef mh ptr_sym ptr_obj).
+Local Notation goja_hash := (goja_hash hashTrue hashFalse hashNull hashUndef mh ptr_sym ptr_obj host_hash).
 
 (* stronger than asked: no normalisation needed *)
 Lemma hash_respects_same : forall a b, key_wf a = true -> key_wf b = true ->
@@ -47,8 +47,11 @@ Proof.
   - destruct (P6.T_eq_hash_key_agree x y Wa Wb) as (_ & Q2 & _ & _ & Q5 & _).
     f_equal. apply Q5. apply Q2. exact Hs.
   - apply N.eqb_eq in Hs. subst; reflexivity.
-  - destruct h; [discriminate|]. destruct g; [discriminate|]. simpl in Hs.
-    rewrite orb_false_r in Hs. apply N.eqb_eq in Hs. subst; reflexivity.
+  - unfold obj_same in Hs. destruct h as [x|]; destruct g as [y|]; simpl in Hs;
+      rewrite ?andb_false_r, ?orb_false_r, ?andb_true_r in Hs; try discriminate.
+    + assert (E : N.eqb x y = true) by (destruct (N.eqb x y); [reflexivity|rewrite andb_false_r in Hs; exact Hs]).
+      apply N.eqb_eq in E. subst; reflexivity.
+    + apply N.eqb_eq in Hs. subst; reflexivity.
   - apply Z.eqb_eq in Hs. subst; reflexivity.
 Qed.
 
@@ -80,15 +83,13 @@ Lemma hash_respects_refuted_noncanonical :
   goja_hash (goja_norm a) <> goja_hash (goja_norm b).
 Proof. vm_compute. repeat split; try reflexivity. discriminate. Qed.
 
-(* (b) two wrapper objects around one Go value: === / Object.is / SameAs hold through objectImpl.equal,
-   but the hash is the address of each wrapper (distinct objects have distinct addresses) *)
-Lemma hash_respects_refuted_hostwrapper :
-  (forall i j, ptr_obj i = ptr_obj j -> i = j) ->
-  let a := VObj 1 (Some 7%N) in let b := VObj 2 (Some 7%N) in
-  goja_same (goja_norm a) (goja_norm b) = true /\ goja_hash (goja_norm a) <> goja_hash (goja_norm b).
-Proof.
-  intros Hinj a b. split; [reflexivity|]. simpl. intros E. apply Hinj in E. discriminate.
-Qed.
+(* (b) two wrapper objects around one Go value (distinct addresses) are SameAs through objectImpl.equal; since
+   813b109 they hash by what they wrap (was open finding C18-H1: the hash was the wrapper's address) *)
+Lemma hostwrapper_same_hash :
+  let a := VObj 1 (Some 7%N) in let b := VObj 2 (Some 7%N) in let c := VObj 1 None in
+  key_wf a = true /\ key_wf b = true /\ a <> b /\ goja_same (goja_norm a) (goja_norm b) = true /\
+  goja_hash (goja_norm a) = goja_hash (goja_norm b) /\ goja_same a c = false.
+Proof. repeat split; discriminate. Qed.
 
 (* ================================================================== *)
 (* 2. [om_refines] at the well-formed JS values                         *)
@@ -138,54 +139,58 @@ Proof.
     apply bool_eq_iff. rewrite Q2. symmetry. apply Verif.C06.Proofs.list_eqb_eq.
 Qed.
 
-(* SameValueZero as computed by goja is an equivalence on well-formed keys (needed by [sdata_keys_unique]) *)
+(* SameValueZero as computed by goja is an equivalence on well-formed keys (needed by [sdata_keys_unique]):
+   SameAs is equality of denotations *)
+Inductive kden := DUndef | DNull | DBool (b : bool) | DNum (n : M5.jsnum) | DStr (u : list N)
+                | DSym (i : N) | DObj (i : N) | DHost (g : N) | DBig (z : Z).
+Definition den (v : jsval) : kden :=
+  match v with
+  | VUndef => DUndef | VNull => DNull | VBool b => DBool b | VNum n => DNum n | VStr s => DStr (M6.units s)
+  | VSym i => DSym i | VObj i None => DObj i | VObj _ (Some g) => DHost g | VBig z => DBig z
+  end.
+
+Lemma same_iff_den : forall a b, key_wf a = true -> key_wf b = true ->
+  (goja_same a b = true <-> den a = den b).
+Proof.
+  intros [| |x|x|x|i|i h|x] [| |y|y|y|j|j g|y] Wa Wb; simpl in *;
+    try (split; [discriminate|]; try destruct h; try destruct g; discriminate);
+    try (split; reflexivity).
+  - split; [intros E; apply eqb_prop in E; subst; reflexivity|intros E; inversion E; apply eqb_reflx].
+  - apply andb_true_iff in Wa. apply andb_true_iff in Wb.
+    rewrite (P5.sameAs_iff_eq x y (proj1 Wa) (proj1 Wb)). split; [intros; subst; reflexivity|intros E; inversion E; reflexivity].
+  - destruct (P6.T_eq_hash_key_agree x y Wa Wb) as (_ & Q2 & _). rewrite Q2.
+    split; [intros E; rewrite E; reflexivity|intros E; inversion E; reflexivity].
+  - rewrite N.eqb_eq. split; [intros; subst; reflexivity|intros E; inversion E; reflexivity].
+  - unfold obj_same. destruct h as [x|]; destruct g as [y|]; simpl;
+      rewrite ?andb_false_r, ?orb_false_r, ?andb_true_r; try (split; discriminate).
+    + destruct (N.eqb x y) eqn:E; rewrite ?andb_true_r, ?andb_false_r, ?orb_true_r, ?orb_false_r.
+      * apply N.eqb_eq in E. subst. split; reflexivity.
+      * apply N.eqb_neq in E. split; [discriminate|intros E'; inversion E'; contradiction].
+    + rewrite N.eqb_eq. split; [intros; subst; reflexivity|intros E; inversion E; reflexivity].
+  - rewrite Z.eqb_eq. split; [intros; subst; reflexivity|intros E; inversion E; reflexivity].
+Qed.
+
 Lemma wf_same_equiv :
   (forall a : wfkey, wf_same a a = true) /\
   (forall a b : wfkey, wf_same a b = true -> wf_same b a = true) /\
   (forall a b c : wfkey, wf_same a b = true -> wf_same b c = true -> wf_same a c = true).
 Proof.
-  assert (E : forall a b, key_wf a = true -> key_wf b = true -> (goja_same a b = true <-> a = b \/
-             exists x y, a = VStr x /\ b = VStr y /\ M6.units x = M6.units y)).
-  { intros [| |x|x|x|i|i h|x] [| |y|y|y|j|j g|y] Wa Wb; simpl in *;
-      try (split; [discriminate| intros [E|(x0 & y0 & E1 & E2 & _)]; congruence]);
-      try (split; [left; reflexivity|reflexivity]).
-    - split; [intros E; apply eqb_prop in E; subst; left; reflexivity|].
-      intros [E|(x0 & y0 & E1 & E2 & _)]; [inversion E; apply eqb_reflx|discriminate].
-    - apply andb_true_iff in Wa. apply andb_true_iff in Wb.
-      rewrite (P5.sameAs_iff_eq x y (proj1 Wa) (proj1 Wb)).
-      split; [intros; subst; left; reflexivity|].
-      intros [E|(x0 & y0 & E1 & E2 & _)]; [inversion E; reflexivity|discriminate].
-    - destruct (P6.T_eq_hash_key_agree x y Wa Wb) as (_ & Q2 & _). rewrite Q2.
-      split; [intros E; right; exists x, y; auto|].
-      intros [E|(x0 & y0 & E1 & E2 & E3)]; [inversion E; reflexivity|].
-      inversion E1; inversion E2; subst; exact E3.
-    - rewrite N.eqb_eq. split; [intros; subst; left; reflexivity|].
-      intros [E|(x0 & y0 & E1 & E2 & _)]; [inversion E; reflexivity|discriminate].
-    - destruct h; [discriminate|]. destruct g; [discriminate|]. simpl. rewrite orb_false_r, N.eqb_eq.
-      split; [intros; subst; left; reflexivity|].
-      intros [E|(x0 & y0 & E1 & E2 & _)]; [inversion E; reflexivity|discriminate].
-    - rewrite Z.eqb_eq. split; [intros; subst; left; reflexivity|].
-      intros [E|(x0 & y0 & E1 & E2 & _)]; [inversion E; reflexivity|discriminate]. }
   split; [|split].
-  - intros [a Ha]. unfold wf_same; simpl. apply (E a a Ha Ha). left; reflexivity.
-  - intros [a Ha] [b Hb]. unfold wf_same; simpl. intros H. apply (E a b Ha Hb) in H. apply (E b a Hb Ha).
-    destruct H as [H|(x & y & E1 & E2 & E3)]; [left; congruence|]. right. exists y, x. auto.
-  - intros [a Ha] [b Hb] [c Hc]. unfold wf_same; simpl. intros H1 H2.
-    apply (E a b Ha Hb) in H1. apply (E b c Hb Hc) in H2. apply (E a c Ha Hc).
-    destruct H1 as [H1|(x & y & E1 & E2 & E3)]; [subst b; exact H2|].
-    destruct H2 as [H2|(x' & y' & E1' & E2' & E3')]; [subst c; right; exists x, y; auto|].
-    right. exists x, y'. subst. inversion E1'; subst. split; [reflexivity|]. split; [reflexivity|]. congruence.
+  - intros [a Ha]. apply (same_iff_den a a Ha Ha). reflexivity.
+  - intros [a Ha] [b Hb] E. apply (same_iff_den a b Ha Hb) in E. apply (same_iff_den b a Hb Ha). symmetry; exact E.
+  - intros [a Ha] [b Hb] [c Hc] E1 E2. apply (same_iff_den a b Ha Hb) in E1. apply (same_iff_den b c Hb Hc) in E2.
+    apply (same_iff_den a c Ha Hc). congruence.
 Qed.
 
 Section WfkeyFunctions.
 Variables hashTrue hashFalse hashNull hashUndef : N.
 Variable mh : list N -> N.
-Variables ptr_sym ptr_obj : N -> N.
+Variables ptr_sym ptr_obj host_hash : N -> N.
 Lemma wfkey_functions : forall a b : wfkey,
   wf_same a b = goja_same (proj1_sig a) (proj1_sig b) /\
   proj1_sig (wf_norm a) = goja_norm (proj1_sig a) /\
-  wf_hash hashTrue hashFalse hashNull hashUndef mh ptr_sym ptr_obj a =
-    goja_hash hashTrue hashFalse hashNull hashUndef mh ptr_sym ptr_obj (proj1_sig a) /\
+  wf_hash hashTrue hashFalse hashNull hashUndef mh ptr_sym ptr_obj host_hash a =
+    goja_hash hashTrue hashFalse hashNull hashUndef mh ptr_sym ptr_obj host_hash (proj1_sig a) /\
   svz wf_same wf_norm a b = svz_spec (proj1_sig a) (proj1_sig b).
 Proof.
   intros a b. repeat split. exact (goja_same_is_svz _ _ (proj2_sig a) (proj2_sig b)).
@@ -339,8 +344,8 @@ End SymTab.
 Section JsOrder.
 Variables hashTrue hashFalse hashNull hashUndef : N.
 Variable mh : list N -> N.
-Variables ptr_sym ptr_obj : N -> N.
-Local Notation wf_hash := (wf_hash hashTrue hashFalse hashNull hashUndef mh ptr_sym ptr_obj).
+Variables ptr_sym ptr_obj host_hash : N -> N.
+Local Notation wf_hash := (wf_hash hashTrue hashFalse hashNull hashUndef mh ptr_sym ptr_obj host_hash).
 
 Lemma map_iteration_order_js : forall (V : Type) (ops : list (@op wfkey V)) k,
   let d := fst (fst (run (sstep wf_same wf_norm) sinit ops)) in
@@ -350,7 +355,7 @@ Lemma map_iteration_order_js : forall (V : Type) (ops : list (@op wfkey V)) k,
 Proof.
   intros V.
   exact (fresh_iter_lists_live wf_same wf_norm wf_hash
-           (wf_hash_respects hashTrue hashFalse hashNull hashUndef mh ptr_sym ptr_obj) wf_norm_idem).
+           (wf_hash_respects hashTrue hashFalse hashNull hashUndef mh ptr_sym ptr_obj host_hash) wf_norm_idem).
 Qed.
 End JsOrder.
 
@@ -382,9 +387,9 @@ Qed.
 Section Raw.
 Variables hashTrue hashFalse hashNull hashUndef : N.
 Variable mh : list N -> N.
-Variables ptr_sym ptr_obj : N -> N.
-Local Notation goja_hash := (goja_hash hashTrue hashFalse hashNull hashUndef mh ptr_sym ptr_obj).
-Local Notation wf_hash := (wf_hash hashTrue hashFalse hashNull hashUndef mh ptr_sym ptr_obj).
+Variables ptr_sym ptr_obj host_hash : N -> N.
+Local Notation goja_hash := (goja_hash hashTrue hashFalse hashNull hashUndef mh ptr_sym ptr_obj host_hash).
+Local Notation wf_hash := (wf_hash hashTrue hashFalse hashNull hashUndef mh ptr_sym ptr_obj host_hash).
 
 Lemma om_refines_js_raw : forall (V : Type) (ops : list (@op jsval V)), Forall op_wf ops ->
   snd (run (istep goja_same goja_norm goja_hash) iinit ops) = snd (run (sstep goja_same goja_norm) sinit ops).
@@ -392,6 +397,6 @@ Proof.
   intros V ops Hw. destruct (lift_ops ops Hw) as [ops' E]. subst ops.
   exact (Transfer.refines_image kval wf_same wf_norm wf_hash goja_same goja_norm goja_hash
            (fun a b => eq_refl) (fun a => eq_refl) (fun a => eq_refl)
-           (om_refines_js hashTrue hashFalse hashNull hashUndef mh ptr_sym ptr_obj V) ops').
+           (om_refines_js hashTrue hashFalse hashNull hashUndef mh ptr_sym ptr_obj host_hash V) ops').
 Qed.
 End Raw.
